@@ -85,6 +85,14 @@ CLAIMS["C04"] = dict(text="bounded symbolic execution with CrossHair (z3-driven 
                     "counts; each harness has a reachability twin that must be refuted", design_ref="5/C04", engine="crosshair",
                     technique="CrossHair symbolic execution (z3) of the real program_utils / GBS code over symbolic small-integer command descriptions; verdict 'Confirmed over all paths' within stated bounds",
                     note="CrossHair realises symbolic integers at hash/dict boundaries (networkx), so its verdict is a solver-driven exhaustive case split rather than a single formula; bounds are small because cost grows about tenfold per command; trusted: CrossHair 0.0.110, z3, the respects()/wires() oracle in xh/c04_reorder.py")
+CLAIMS["C09"] = dict(text="bounded symbolic model checking through the real LocalEngine: for every command sequence up to the length bound over an alphabet "
+                    "with daggered gates, decomposed gates (X, MZ), channels, preparations, a homodyne measurement (symbolic outcome shared between the "
+                    "runs) and a gate using the measured parameter, and every cut into two segments, run([p1,p2]), run(p1);run(p2) on a second engine "
+                    "with the SAME program objects, the concatenated program, and reset-then-run all end in the same state, from an ARBITRARY symbolic "
+                    "initial state and for all parameter values (path-feasibility queries decide which branches of Gate.apply / measurement code exist; "
+                    "the state equalities then fold by hash-consing or go to the solver); circuit lists, operation objects, parameter objects, dagger "
+                    "flags and registers are identity-unchanged after run and after compile for 5 targets; an apply aborted by an injected backend fault "
+                    "leaves the operation untouched", design_ref="5/C09")
 NA_DEFAULT = "check not built yet in this session (plan: DESIGN.md section 5)"
 NA = {}
 
